@@ -8,6 +8,7 @@ import (
 	"errors"
 	"fmt"
 	"os"
+	"runtime"
 	"strings"
 	"syscall"
 
@@ -110,3 +111,28 @@ func (o osFS) Lchown(name string, uid, gid int) error { return os.Lchown(name, u
 
 // FS returns the pass-through file system of the kernel side.
 func FS() avfs.VFS { return osFS{osfs.NewWithNoIdm()} }
+
+// AsUser runs f on the calling goroutine's OS thread with the file-system identity of (uid, gid) and no supplementary
+// groups, then restores root. The goroutine must be locked to its thread (LockThread) for the whole run: fsuid/fsgid are
+// per-thread attributes on Linux, and dropping fsuid 0 clears the file-system capabilities of that thread only.
+func AsUser(uid, gid int, f func()) error {
+	if _, _, e := syscall.RawSyscall(syscall.SYS_SETGROUPS, 0, 0, 0); e != 0 {
+		return fmt.Errorf("setgroups: %v", e)
+	}
+	syscall.RawSyscall(syscall.SYS_SETFSGID, uintptr(gid), 0, 0)
+	syscall.RawSyscall(syscall.SYS_SETFSUID, uintptr(uid), 0, 0)
+	// verify: setfsuid returns the previous value; asking again tells what is in force
+	cur, _, _ := syscall.RawSyscall(syscall.SYS_SETFSUID, uintptr(uid), 0, 0)
+	defer func() {
+		syscall.RawSyscall(syscall.SYS_SETFSUID, 0, 0, 0)
+		syscall.RawSyscall(syscall.SYS_SETFSGID, 0, 0, 0)
+	}()
+	if int(cur) != uid {
+		return fmt.Errorf("setfsuid(%d) not in force (got %d)", uid, cur)
+	}
+	f()
+	return nil
+}
+
+// LockThread pins the calling goroutine to its OS thread for good.
+func LockThread() { runtime.LockOSThread() }
